@@ -690,7 +690,7 @@ def _generic_rules(chk):
     flt = lambda name: bool(scope.search(name.rsplit('.', 1)[-1]))
     _g.rule_group_names(chk, idx_, _Res(idx_), 'C13.groups', 'recognizers_sequence', None, floor=1)
     _g.rule_filter_predicates(chk, idx_, 'C13.filters', 'recognizers_sequence', floor=1)
-    _g.rule_index_guards(chk, idx_, 'C13.index-guards', 'recognizers_sequence', floor=1)
+    _g.rule_index_guards(chk, idx_, 'C13.index-guards', 'recognizers_sequence', floor=0)   # floor 0: C13.index-lower decides refactored guards
 
 
 _run_before_generic = run
@@ -1098,3 +1098,402 @@ _run_before_canon = run
 def run(chk):       # noqa: F811
     _run_before_canon(chk)
     rule_canon(chk)
+
+
+# ---------------------------------------------------------------------------------------------------------------
+# C13.index-lower and C13.prefix-slice (added after two seeded changes were not reported)
+#
+# C13.index-lower   in recognizers_sequence.sequence.extractors: a subscript T[x - c] of a text / list held in a name reads
+#                   from the END of T when x < c (Python wraps negative indices).  Every such read - or, when the read is only
+#                   stored in a local, every use of that local - must be dominated by a test that excludes x < c
+#                   (`x > 0`, `x >= c`, `x != 0`, an early exit on `x < c` ...).  A subscript by a parameter of a same-class
+#                   helper is followed to the helper's call sites (depth 1): an argument `x - c` needs the guard there, unless
+#                   the helper itself excludes negative values.
+# C13.prefix-slice  where a function tests the character before an entity (`ch = T[x - 1]`) and searches end-anchored patterns
+#                   in the text in front (`front = T[0:e]`), the prefix must stop before that character (e = x - 1) - or, if
+#                   it includes it (e = x), every pattern searched under a condition `ch in M` must be able to end with a
+#                   character of M; otherwise the search can never succeed.
+
+SEQ_EXTRACTORS = 'recognizers_sequence.sequence.extractors'
+_EXITS = (ast.Return, ast.Continue, ast.Break, ast.Raise)
+
+
+def _neg_capable(e):
+    """x - c (c a positive int constant) -> (text of x, c) else None"""
+    if isinstance(e, ast.BinOp) and isinstance(e.op, ast.Sub) and isinstance(e.right, ast.Constant) \
+            and isinstance(e.right.value, int) and e.right.value > 0:
+        return ast.unparse(e.left), e.right.value
+    return None
+
+
+def _excludes_below(cond, negated, x, c):
+    """does `cond` (or its negation) being true imply  x >= c ?"""
+    if isinstance(cond, ast.UnaryOp) and isinstance(cond.op, ast.Not):
+        return _excludes_below(cond.operand, not negated, x, c)
+    if isinstance(cond, ast.BoolOp):
+        if isinstance(cond.op, ast.And) and not negated:
+            return any(_excludes_below(v, False, x, c) for v in cond.values)
+        if isinstance(cond.op, ast.Or) and negated:
+            return any(_excludes_below(v, True, x, c) for v in cond.values)
+        return False
+    if not (isinstance(cond, ast.Compare) and len(cond.ops) == 1):
+        return False
+    l, r, op = cond.left, cond.comparators[0], cond.ops[0]
+    flip = {ast.Lt: ast.Gt, ast.LtE: ast.GtE, ast.Gt: ast.Lt, ast.GtE: ast.LtE, ast.Eq: ast.Eq, ast.NotEq: ast.NotEq}
+    neg = {ast.Lt: ast.GtE, ast.LtE: ast.Gt, ast.Gt: ast.LtE, ast.GtE: ast.Lt, ast.Eq: ast.NotEq, ast.NotEq: ast.Eq}
+    opt = type(op)
+    if opt not in flip:
+        return False
+    if isinstance(l, ast.Constant) and not isinstance(r, ast.Constant):
+        l, r, opt = r, l, flip[opt]
+    if negated:
+        opt = neg[opt]
+    if not (isinstance(r, ast.Constant) and isinstance(r.value, int)):
+        return False
+    k = r.value
+    lt = ast.unparse(l)
+    if lt == x:
+        return (opt is ast.Gt and k >= c - 1) or (opt is ast.GtE and k >= c) or (opt is ast.NotEq and k == 0 and c == 1)
+    if lt == '%s - %d' % (x, c):
+        return (opt is ast.Gt and k >= -1) or (opt is ast.GtE and k >= 0)
+    return False
+
+
+class _Flow:
+    """walks a function body and calls visit(node, known) for every expression node, where known is the list of
+    (condition, negated) facts that hold when the node is evaluated (enclosing ifs, earlier operands of `and`, conditional
+    expressions, early exits earlier in the same block)"""
+
+    def __init__(self, visit):
+        self.visit = visit
+
+    def block(self, stmts, known):
+        known = list(known)
+        for st in stmts:
+            self.stmt(st, known)
+            if isinstance(st, ast.If) and not st.orelse and st.body and isinstance(st.body[-1], _EXITS):
+                known.append((st.test, True))
+
+    def stmt(self, st, known):
+        if isinstance(st, ast.If):
+            self.expr(st.test, known)
+            self.block(st.body, known + [(st.test, False)])
+            self.block(st.orelse, known + [(st.test, True)])
+        elif isinstance(st, ast.While):
+            self.expr(st.test, known)
+            self.block(st.body, known + [(st.test, False)])
+            self.block(st.orelse, known)
+        elif isinstance(st, ast.For):
+            self.expr(st.iter, known)
+            self.block(st.body, known)
+            self.block(st.orelse, known)
+        elif isinstance(st, ast.Try):
+            self.block(st.body, known)
+            for h in st.handlers:
+                self.block(h.body, known)
+            self.block(st.orelse, known)
+            self.block(st.finalbody, known)
+        elif isinstance(st, ast.With):
+            for it in st.items:
+                self.expr(it.context_expr, known)
+            self.block(st.body, known)
+        elif isinstance(st, (ast.FunctionDef, ast.ClassDef)):
+            return
+        else:
+            for ch in ast.iter_child_nodes(st):
+                if isinstance(ch, ast.expr):
+                    self.expr(ch, known)
+
+    def expr(self, e, known):
+        if isinstance(e, ast.BoolOp) and isinstance(e.op, ast.And):
+            k = list(known)
+            for v in e.values:
+                self.expr(v, k)
+                k = k + [(v, False)]
+            return
+        if isinstance(e, ast.BoolOp) and isinstance(e.op, ast.Or):
+            k = list(known)
+            for v in e.values:
+                self.expr(v, k)
+                k = k + [(v, True)]
+            return
+        if isinstance(e, ast.IfExp):
+            self.expr(e.test, known)
+            self.expr(e.body, known + [(e.test, False)])
+            self.expr(e.orelse, known + [(e.test, True)])
+            return
+        self.visit(e, known)
+        for ch in ast.iter_child_nodes(e):
+            if isinstance(ch, ast.expr):
+                self.expr(ch, known)
+            elif isinstance(ch, ast.comprehension):
+                self.expr(ch.iter, known)
+                for c in ch.ifs:
+                    self.expr(c, known)
+            elif isinstance(ch, ast.keyword):
+                self.expr(ch.value, known)
+
+
+def _guarded(known, x, c):
+    return any(_excludes_below(cond, neg, x, c) for cond, neg in known)
+
+
+def index_lower_instances(cls_methods, fn):
+    """verdicts for the negative-capable subscripts of fn -> list of (node, text, ok, why); cls_methods: name -> FunctionDef of
+    the same class (to follow helper parameters to their call sites)"""
+    out = []
+    params = [a.arg for a in fn.args.args if a.arg not in ('self', 'cls')]
+    stored = {}      # local -> (subscript node, x, c) when `v = T[x - c]` is read unguarded
+    param_reads = {}  # parameter -> subscript node read without a lower-bound guard inside the helper
+    plain_assign_value = {}
+    for n in ast.walk(fn):
+        if isinstance(n, ast.Assign) and len(n.targets) == 1 and isinstance(n.targets[0], ast.Name):
+            plain_assign_value[id(n.value)] = n.targets[0].id
+    uses = []
+
+    def visit(e, known):
+        if isinstance(e, ast.Subscript) and not isinstance(e.slice, ast.Slice) and isinstance(e.value, ast.Name) \
+                and isinstance(e.ctx, ast.Load):
+            nc = _neg_capable(e.slice)
+            if nc is not None:
+                x, c = nc
+                if _guarded(known, x, c):
+                    out.append((e, ast.unparse(e), True, 'dominated by a test excluding %s < %d' % (x, c)))
+                elif id(e) in plain_assign_value:
+                    stored[plain_assign_value[id(e)]] = (e, x, c)
+                else:
+                    out.append((e, ast.unparse(e), False, 'no test excluding %s < %d dominates the read' % (x, c)))
+            elif isinstance(e.slice, ast.Name) and e.slice.id in params:
+                p = e.slice.id
+                if not _guarded(known, p, 0) and not any(_excludes_below(cond, neg, p, 0) for cond, neg in known):
+                    param_reads.setdefault(p, e)
+        if isinstance(e, ast.Name) and isinstance(e.ctx, ast.Load):
+            uses.append((e, known))
+    _Flow(visit).block(fn.body, [])
+    for v, (node, x, c) in stored.items():
+        bad = [u for u, known in uses if u.id == v and u.lineno >= node.lineno and not _guarded(known, x, c)]
+        out.append((node, '%s = %s' % (v, ast.unparse(node)), not bad,
+                    'every use of %s is dominated by a test excluding %s < %d' % (v, x, c) if not bad else
+                    '%s is used at line %d without a test excluding %s < %d' % (v, bad[0].lineno, x, c)))
+    return out, param_reads
+
+
+def helper_call_instances(cls, cls_methods):
+    """subscripts by a helper parameter that the helper does not bound below: verdict at each same-class call site"""
+    out = []
+    for hname, hfn in cls_methods.items():
+        _inst, param_reads = index_lower_instances(cls_methods, hfn)
+        if not param_reads:
+            continue
+        hparams = [a.arg for a in hfn.args.args if a.arg not in ('self', 'cls')]
+        for cname, cfn in cls_methods.items():
+            def visit(e, known, hname=hname, hparams=hparams, param_reads=param_reads, cname=cname):
+                if isinstance(e, ast.Call) and isinstance(e.func, ast.Attribute) and e.func.attr == hname \
+                        and isinstance(e.func.value, ast.Name) and e.func.value.id in ('self', 'cls', cls.name):
+                    bound = dict(zip(hparams, e.args))
+                    for kw in e.keywords:
+                        if kw.arg:
+                            bound[kw.arg] = kw.value
+                    for p, sub in param_reads.items():
+                        a = bound.get(p)
+                        nc = _neg_capable(a) if a is not None else None
+                        if nc is None:
+                            continue
+                        x, c = nc
+                        good = _guarded(known, x, c)
+                        out.append((e, '%s.%s: %s -> %s.%s reads %s' % (cls.name, cname, ast.unparse(e), cls.name, hname, ast.unparse(sub)), good,
+                                    ('call dominated by a test excluding %s < %d' % (x, c)) if good else
+                                    'neither %s nor this call site excludes %s < %d: %s wraps around to the end of the text'
+                                    % (hname, x, c, ast.unparse(sub))))
+            _Flow(visit).block(cfn.body, [])
+    return out
+
+
+def _can_end_with(n, ch):
+    k = n.kind
+    if k in ('lit', 'any', 'cc', 'class', 'range'):
+        return rx._ch_match(n, ch)
+    if k == 'group':
+        return _can_end_with(n.node, ch)
+    if k == 'alt':
+        return any(_can_end_with(a, ch) for a in n.items)
+    if k == 'rep':
+        return _can_end_with(n.node, ch)
+    if k == 'seq':
+        for it in reversed(n.items):
+            if it.kind in ('anchor', 'look', 'flags'):
+                continue
+            if _can_end_with(it, ch):
+                return True
+            if not nullable(it):
+                return False
+        return False
+    return False
+
+
+def _end_anchored(n):
+    m = n
+    while m.kind == 'group':
+        m = m.node
+    if m.kind == 'alt':
+        return all(_end_anchored(a) for a in m.items)
+    if m.kind == 'seq' and m.items:
+        last = [it for it in m.items if it.kind != 'flags']
+        return bool(last) and (last[-1].kind == 'anchor' and last[-1].c in ('$', '\\Z', '\\z') or _end_anchored(last[-1]) if last[-1].kind in ('group', 'alt', 'seq') else
+                               last[-1].kind == 'anchor' and last[-1].c in ('$', '\\Z', '\\z'))
+    return m.kind == 'anchor' and m.c in ('$', '\\Z', '\\z')
+
+
+def rule_index_lower_and_prefix(chk):
+    ev = Ev()
+    idx = ev.idx
+    chk.rule('C13.index-lower', 'a subscript T[x - c] is only read (or its value only used) where x >= c is established', floor=3, control=True)
+    chk.rule('C13.prefix-slice', 'the prefix searched with end-anchored patterns stops before the separately tested separator character',
+             floor=2, control=True)
+    m = idx.mod(SEQ_EXTRACTORS)
+    chk.consulted(m.path)
+    for cls in m.classes.values():
+        for fn in cls.methods.values():
+            inst, _pr = index_lower_instances(cls.methods, fn)
+            for node, text, good, why in inst:
+                chk.judge(good, 'C13.index-lower', m.path, '%s.%s: %s' % (cls.name, fn.name, text), why,
+                          '%s.%s reads %s, but %s: for a match at the very start of the input the index is negative and Python reads '
+                          'from the END of the text' % (cls.name, fn.name, text, why), node.lineno)
+        for node, text, good, why in helper_call_instances(cls, cls.methods):
+            chk.judge(good, 'C13.index-lower', m.path, text, why, '%s: %s' % (text, why), node.lineno)
+        # non-name receivers: observation only
+        for fn in cls.methods.values():
+            def visit(e, known, fn=fn, cls=cls):
+                if isinstance(e, ast.Subscript) and not isinstance(e.slice, ast.Slice) and not isinstance(e.value, ast.Name):
+                    nc = _neg_capable(e.slice)
+                    if nc and not _guarded(known, nc[0], nc[1]):
+                        chk.observe('%s.%s line %d: %s is read without a test excluding %s < %d (receiver is not a plain name; not armed - '
+                                    'in BaseIpExtractor.extract this read is only reached when a letter follows a trailing \'::\', which the '
+                                    'patterns exclude)' % (cls.name, fn.name, e.lineno, ast.unparse(e), nc[0], nc[1]))
+            _Flow(visit).block(fn.body, [])
+    ctl = ast.parse("class X:\n    def extract(self, source, start):\n        if self._w(source, start - 1):\n            pass\n"
+                    "    def _w(self, source, index):\n        if index >= len(source):\n            return False\n"
+                    "        c = source[index]\n        return c.isdigit()\n").body[0]
+    from ..index import Cls
+    cc = Cls(m, ctl)
+    chk.control('C13.index-lower', [g for _n, _t, g, _w in helper_call_instances(cc, cc.methods)] == [False])
+
+    # ---- prefix slice
+    phone_cfgs = []
+    for r in registrations(ev, SEQ_RECOGNIZER):
+        e = r.args.get('extractor')
+        if r.model_cls.name == 'PhoneNumberModel' and isinstance(e, ast.Call) and e.args and isinstance(e.args[0], ast.Call):
+            c = idx.resolve_class(r.mod, e.args[0].func)
+            if c is not None and c not in phone_cfgs:
+                phone_cfgs.append(c)
+
+    def values_of(mod, e):
+        """evaluate a pattern / marker expression: resource constant, or self.config.<slot> over the phone configurations"""
+        d = dotted(e)
+        if d and d.startswith('self.config.'):
+            out = []
+            for c in phone_cfgs:
+                sl = slot(ev, c, d[len('self.config.'):])
+                if sl.value is not None:
+                    out.append((c.name, sl.value))
+            return out
+        try:
+            return [('', ev.ev(mod, e))]
+        except Unresolved:
+            return []
+    for cls in m.classes.values():
+        for fn in cls.methods.values():
+            ch_locals, fronts, compiled = {}, {}, {}
+            for n in ast.walk(fn):
+                if isinstance(n, ast.Assign) and len(n.targets) == 1 and isinstance(n.targets[0], ast.Name):
+                    v, val = n.targets[0].id, n.value
+                    if isinstance(val, ast.Subscript) and isinstance(val.value, ast.Name):
+                        if not isinstance(val.slice, ast.Slice):
+                            nc = _neg_capable(val.slice)
+                            if nc and nc[1] == 1:
+                                ch_locals[v] = (val.value.id, nc[0])
+                        elif val.slice.step is None and (val.slice.lower is None or (isinstance(val.slice.lower, ast.Constant) and val.slice.lower.value == 0)) \
+                                and val.slice.upper is not None:
+                            up = val.slice.upper
+                            nc = _neg_capable(up)
+                            if nc:
+                                fronts[v] = (val.value.id, nc[0], -nc[1], n.lineno)
+                            elif isinstance(up, ast.BinOp) and isinstance(up.op, ast.Add) and isinstance(up.right, ast.Constant):
+                                fronts[v] = (val.value.id, ast.unparse(up.left), up.right.value, n.lineno)
+                            else:
+                                fronts[v] = (val.value.id, ast.unparse(up), 0, n.lineno)
+                    if isinstance(val, ast.Call) and dotted(val.func) in ('re.compile', 'regex.compile') and val.args:
+                        compiled[v] = val.args[0]
+            pairs = [(chv, fv) for chv, (t1, x1) in ch_locals.items() for fv, (t2, x2, k, _l) in fronts.items() if t1 == t2 and x1 == x2]
+            if not pairs:
+                continue
+            for chv, fv in pairs:
+                t, x, k, fline = fronts[fv]
+
+                def visit(e, known, chv=chv, fv=fv, k=k, x=x, fn=fn, cls=cls):
+                    if not (isinstance(e, ast.Call) and isinstance(e.func, ast.Attribute) and e.func.attr == 'search' and e.args
+                            and isinstance(e.args[-1], ast.Name) and e.args[-1].id == fv):
+                        return
+                    pexpr = e.func.value
+                    if isinstance(pexpr, ast.Name) and pexpr.id in compiled:
+                        pexpr = compiled[pexpr.id]
+                    elif isinstance(pexpr, ast.Call) and dotted(pexpr.func) in ('re.compile', 'regex.compile') and pexpr.args:
+                        pexpr = pexpr.args[0]
+                    markers = None
+                    flat = []
+                    for cond, neg in known:
+                        if not neg and isinstance(cond, ast.BoolOp) and isinstance(cond.op, ast.And):
+                            flat.extend((v_, False) for v_ in cond.values)
+                        else:
+                            flat.append((cond, neg))
+                    for cond, neg in flat:
+                        if not neg and isinstance(cond, ast.Compare) and len(cond.ops) == 1 and isinstance(cond.ops[0], ast.In) \
+                                and isinstance(cond.left, ast.Name) and cond.left.id == chv:
+                            vals = values_of(m, cond.comparators[0])
+                            if not vals:
+                                raise AnalysisError('%s.%s: marker set %s not evaluable' % (cls.name, fn.name, ast.unparse(cond.comparators[0])))
+                            s = set()
+                            for _c, v_ in vals:
+                                s |= set(v_)
+                            markers = s if markers is None else (markers & s)
+                    if markers is None:
+                        return      # the search does not depend on the separator character
+                    pats = values_of(m, pexpr)
+                    if not pats:
+                        raise AnalysisError('%s.%s:%d pattern %s searched in %s not evaluable' % (cls.name, fn.name, e.lineno, ast.unparse(pexpr), fv))
+                    for cname, pat in pats:
+                        if not isinstance(pat, str):
+                            continue
+                        try:
+                            tree = rx.parse(pat)
+                        except rx.RxError as ex:
+                            raise AnalysisError('%s.%s: pattern %s not analysable: %s' % (cls.name, fn.name, ast.unparse(pexpr), ex))
+                        construct = '%s.%s: %s.search(%s) under %s in %s%s' % (cls.name, fn.name, ast.unparse(pexpr), fv, chv, sorted(markers),
+                                                                              ' [%s]' % cname if cname else '')
+                        if not _end_anchored(tree):
+                            chk.ok('C13.prefix-slice', m.path, construct, 'pattern is not end-anchored', e.lineno)
+                            continue
+                        if k == -1:
+                            chk.ok('C13.prefix-slice', m.path, construct, '%s ends before %s (= the character at %s - 1)' % (fv, chv, x), e.lineno)
+                        elif k == 0:
+                            can = sorted(c_ for c_ in markers if _can_end_with(tree, c_))
+                            chk.judge(bool(can), 'C13.prefix-slice', m.path, construct,
+                                      '%s includes %s; pattern can end with %s' % (fv, chv, can),
+                                      '%s.%s: %s now ends WITH the separator character %s (one of %s), but the end-anchored pattern %r '
+                                      'searched in it cannot end with any of these characters: the search can never succeed (a number '
+                                      'glued to a label or dialing prefix is dropped)' % (cls.name, fn.name, fv, chv, sorted(markers), pat), e.lineno)
+                        else:
+                            raise AnalysisError('%s.%s: prefix %s ends at %s%+d relative to the tested character; not understood'
+                                                % (cls.name, fn.name, fv, x, k))
+                _Flow(visit).block(fn.body, [])
+    t = rx.parse('(([a-z])\\s*$)')
+    chk.control('C13.prefix-slice', _end_anchored(t) and not _can_end_with(t, ':') and _can_end_with(t, 'x') and _can_end_with(t, ' ')
+                and not _can_end_with(rx.parse('0(0|11)$'), '-'))
+
+
+_run_before_index_lower = run
+
+
+def run(chk):       # noqa: F811
+    _run_before_index_lower(chk)
+    rule_index_lower_and_prefix(chk)
